@@ -26,7 +26,7 @@ CHECKS.update({
    technique='CBMC contracts on NumberDataType::parseInput / checkValueRange (DFCC and harness-enforced per divisor) with strtol/strtoul/strtod as ghost-reading environment stubs',
    level='proof',
    text='parseInput proved, for every numeric type shape (width 1..32 bit, signed/unsigned, BCD/FIX, REQ) and every mathematical reading of the text (128-bit magnitude, sign, parse end, ERANGE), to accept exactly the well-formed in-range numbers and to encode them exactly; fixed-point paths proved per divisor of the property quantifier incl. NaN/inf/overflow; checkValueRange proved equal to the two\'s-complement / IEEE range predicate for all raw values.',
-   note=TB + 'strtol/strtoul/strtod are trusted stubs returning the clamp of a ghost reading (ISO C 7.22.1); exp2 of integral arguments exact. Value lists: ValueListDataField::writeSymbols is under contract in unit valuelist (a text is encoded iff it is a name of the list or a number text denoting a listed value without truncation; else rejected, nothing written). Not decided: DataField::create range parsing (min/max of derived fields); hex/blank/exponent syntax of the C library.',
+   note=TB + 'strtol/strtoul/strtod are trusted stubs returning the clamp of a ghost reading (ISO C 7.22.1); exp2 of integral arguments exact. Value lists: ValueListDataField::writeSymbols is under contract in unit valuelist (a text is encoded iff it is a name of the list or a number text denoting a listed value without truncation; else rejected, nothing written). floatToUint16 (KNX): every float in (-700000, 700000) is encoded within one resolution step or as the invalid value if beyond the range, without undefined behaviour. Not decided: DataField::create range parsing (min/max of derived fields); hex/blank/exponent syntax of the C library.',
    ref='DESIGN.md 5 (C07)'),
  'C12': dict(
    technique='CBMC contracts: frame (assigns) clauses of the codec functions and errno-independence postcondition of parseInput',
@@ -40,13 +40,13 @@ CHECKS.update({
  'C05': dict(
    technique='CBMC contracts on NumberDataType::readRawValue / checkValueRange against an independent type specification (DFCC; multi-byte BCD harness-enforced per flag word); harness-enforced contracts of DateTimeDataType::readSymbols and NumberDataType::readFromRawValue (output as token stream, float multiplication/division by the divisor as uninterpreted functions) against a Gregorian calendar specification for every built-in date/time type of the mechanically extracted type table',
    level='proof',
-   text='readRawValue proved equal to the specified raw decoding (little/big endian, BCD/HCD digit validity, bit ranges, replacement) for every byte pattern, offset and every valid numeric type shape of 1..4 bytes; checkValueRange proved equal to the signed/unsigned/IEEE range predicate; calcPrecision proved. DateTimeDataType::readSymbols proved for all byte patterns of DAY (every day count = the calendar date that many days after 01.01.1900, ff ff = null), DTM (every minute count up to 31.12.2099 23:59 = calendar date and time, beyond rejected), MIN, TTM/TTH/TTQ, BTI/HTI/VTI/BTM/HTM/VTM (components in display order, BCD digit check, 24:00:00 limit) and BDA/HDA dates (day/month/year range), with the output as a token sequence (separators, numbers with width 2 / zero fill, decimal mode whatever the stream state was). StringDataType::readSymbols proved for 4 byte strings (hex: one zero-filled two-digit hex group per byte in storage / reverse order separated by blanks; characters: up to the NUL terminator, control characters as the replacement character, non-printable bytes as ?). NumberDataType::readFromRawValue (text rendering) proved for every valid type shape and raw value: replacement -> null (- / JSON null), out-of-range / non-finite -> error and no output, otherwise exactly one number token: the signed/unsigned integer (fixed-width BCD zero padded to 2 digits per byte), value * multiplier in fixed notation without fraction, value / divisor in fixed notation with the type precision, IEEE values with precision+6; the stream state is reset first so that the result does not depend on earlier output. ValueListDataField::readSymbols: a listed value is shown as its name, the replacement as null, any other value as its number.',
+   text='readRawValue proved equal to the specified raw decoding (little/big endian, BCD/HCD digit validity, bit ranges, replacement) for every byte pattern, offset and every valid numeric type shape of 1..4 bytes; checkValueRange proved equal to the signed/unsigned/IEEE range predicate; calcPrecision proved. DateTimeDataType::readSymbols proved for all byte patterns of DAY (every day count = the calendar date that many days after 01.01.1900, ff ff = null), DTM (every minute count up to 31.12.2099 23:59 = calendar date and time, beyond rejected), MIN, TTM/TTH/TTQ, BTI/HTI/VTI/BTM/HTM/VTM (components in display order, BCD digit check, 24:00:00 limit) and BDA/HDA dates (day/month/year range), with the output as a token sequence (separators, numbers with width 2 / zero fill, decimal mode whatever the stream state was). StringDataType::readSymbols proved for 4 byte strings (hex: one zero-filled two-digit hex group per byte in storage / reverse order separated by blanks; characters: up to the NUL terminator, control characters as the replacement character, non-printable bytes as ?). NumberDataType::readFromRawValue (text rendering) proved for every valid type shape and raw value: replacement -> null (- / JSON null), out-of-range / non-finite -> error and no output, otherwise exactly one number token: the signed/unsigned integer (fixed-width BCD zero padded to 2 digits per byte), value * multiplier in fixed notation without fraction, value / divisor in fixed notation with the type precision, IEEE values with precision+6; the stream state is reset first so that the result does not depend on earlier output. ValueListDataField::readSymbols: a listed value is shown as its name, the replacement as null, any other value as its number. uint16ToFloat (KNX DPT 9): every pattern decodes to 0.01 * mantissa * 2^exponent within float precision, 7fff to no value.',
    note=TB + 'Not decided in this revision: text rendering of numbers (readFromRawValue token stream, libstdc++ number formatting is trusted anyway), partially null dates/times, weekday names, string types, value lists, KNX float, JSON format.',
    ref='DESIGN.md 5 (C05)'),
  'C06': dict(
    technique='CBMC contracts on NumberDataType::writeRawValue (harness-enforced, whole-string frame) + round-trip lemma over the read/write specification functions; decode-then-encode round trip of the extracted DateTimeDataType::readSymbols / writeSymbols for every built-in date/time type; ValueListDataField::writeSymbols against a name/number lookup specification',
    level='proof',
-   text='writeRawValue proved to write exactly the specified bytes, OR-ing bit fields into an existing byte, leaving every other byte of the output unchanged; lemma: encode(decode(bytes)) reproduces the owned bits for every decodable pattern of every valid numeric type shape, null encodes to the canonical replacement pattern; parseInput (C07) gives the text leg for integers. Date/time types: for every byte pattern of BTI/HTI/VTI/BTM/HTM/VTM/MIN/TTM/TTH/TTQ/BDA/BDA:3/HDA/HDA:3/BDZ/DAY (DTM in the thorough tier) that decodes (completely non-null or completely null), encoding the decoded text succeeds, has the type length and reproduces the bytes on the bits the type owns; the null value encodes to the replacement pattern; the weekday byte is regenerated as the calendar weekday. Value lists: a name encodes to its value (names are looked up before numbers), a listed number to itself.',
+   text='writeRawValue proved to write exactly the specified bytes, OR-ing bit fields into an existing byte, leaving every other byte of the output unchanged; lemma: encode(decode(bytes)) reproduces the owned bits for every decodable pattern of every valid numeric type shape, null encodes to the canonical replacement pattern; parseInput (C07) gives the text leg for integers. Date/time types: for every byte pattern of BTI/HTI/VTI/BTM/HTM/VTM/MIN/TTM/TTH/TTQ/BDA/BDA:3/HDA/HDA:3/BDZ/DAY (DTM in the thorough tier) that decodes (completely non-null or completely null), encoding the decoded text succeeds, has the type length and reproduces the bytes on the bits the type owns; the null value encodes to the replacement pattern; the weekday byte is regenerated as the calendar weekday. Value lists: a name encodes to its value (names are looked up before numbers), a listed number to itself. KNX 16 bit float (thorough tier): every pattern except 7fff and f800 is a fixed point of decode-encode-decode.',
    note=TB + 'Harness-enforced (B2) runs check pre/post but not a DFCC assigns clause; the frame is asserted explicitly over the whole output string. Not decided: float text leg (print/parse identity of libstdc++/libc), date/time/string types.',
    ref='DESIGN.md 5 (C06)'),
  'C10': dict(
